@@ -75,6 +75,29 @@ def cases(draw, tier):
             "via_mutation": draw(mutate.via_strategy(ds["rankings"], p=4))}
 
 
+@st.composite
+def many_rankings_cases(draw, tier):
+    """12-40 rankings of a few elements, very incomplete: equal exact means reached with different numbers of rankings
+    (9/15 and 3/5), where the way the mean is computed in floating point matters"""
+    n = draw(st.sampled_from([3, 4, 5, 6]))
+    kind, names = draw(gen.element_names(n, ("dense", "str")))
+    m = draw(st.sampled_from([12, 15, 15, 18, 20, 24, 30, 40]))
+    base = [draw(gen.weak_order_of(names)) for _ in range(draw(st.sampled_from([2, 3, 4])))]
+    rankings = []
+    for k in range(m):
+        r = base[draw(st.integers(0, len(base) - 1))]
+        drop = draw(st.lists(st.integers(0, 2), min_size=n, max_size=n))
+        gone = {e for e, q in zip(names, drop) if q == 0}
+        rr = [b2 for b2 in ([e for e in b if e not in gone] for b in r) if b2]
+        rankings.append(rr)
+    if not any(b for r in rankings for b in r):
+        rankings[0] = [[names[0]]]
+    return {"scheme": draw(gen.preset_multiples(["induced", "induced_half", "unifying", "unifying_half"])),
+            "dataset": {"rankings": rankings, "shape": "many_rankings", "kind": kind},
+            "bucket_id": draw(st.booleans()), "family": "accepted", "perm": list(range(m)),
+            "rename": list(range(len(oracle.universe(rankings)))), "flag": True, "prelude": None, "via_mutation": None}
+
+
 def borda_reference(rankings, univ, unify, bucket_id):
     pts = {}
     for r in rankings:
@@ -172,4 +195,5 @@ def check_one(case, ctx, shared=None):
 
 
 def subchecks():
-    return [HypSub("borda", cases, check, 12000, 150000)]
+    return [HypSub("borda", cases, check, 12000, 150000),
+            HypSub("many_rankings", many_rankings_cases, check, 2500, 30000)]
